@@ -58,8 +58,11 @@ def _tol(ref):
 
 def replay_inverse(where, f, g, x, d, N):
     x = numpy.asarray(x)
-    X = _real_call(where, f, x.copy(), d)
-    y = _real_call(where, g, numpy.asarray(X).copy(), 1.0 / (N * d))
+    try:
+        X = _real_call(where, f, x.copy(), d)
+        y = _real_call(where, g, numpy.asarray(X).copy(), 1.0 / (N * d))
+    except Exception as e:
+        return True, dict(what="%s(%s(x)) raises %s: %s" % (g, f, type(e).__name__, e), x=x, delta=d)
     if numpy.shape(y) != x.shape:
         return True, dict(what="%s(%s(x)) has shape %s, input %s" % (g, f, numpy.shape(y), x.shape), x=x, delta=d)
     err = float(numpy.max(numpy.abs(y - x)))
@@ -223,8 +226,12 @@ def case_real_1d(ctx, where, N, batch):
     ctx.encoded("aotools.fouriertransform.rft", "aotools.fouriertransform.irft")
     ctx.bounds.update(N=N, batch=list(batch), delta="symbolic > 0", input="symbolic real")
     H = _call(where, "rft", x, d)
-    xb = _call(where, "irft", H, df)
-    ctx.prove("irft(rft(x))=x", pre, all_eq(xb, x),
+    try:
+        xb = _call(where, "irft", H, df)
+        goal = all_eq(xb, x)
+    except ValueError:
+        goal = z3.BoolVal(False)       # the inverse refuses the half spectrum of this length: decided by the replay
+    ctx.prove("irft(rft(x))=x", pre, goal,
               replay=lambda m: replay_inverse(where, "rft", "irft", m(x), m(d), N), witness_terms=dict(delta=d))
     # Parseval on the half spectrum, Hermitian weights (1 for DC/Nyquist, 2 otherwise), on the un-shifted bins
     w = _half_weights(N)
@@ -255,8 +262,12 @@ def case_real_2d(ctx, where, N, batch):
     ctx.encoded("aotools.fouriertransform.rft2", "aotools.fouriertransform.irft2")
     ctx.bounds.update(N=N, batch=list(batch), delta="symbolic > 0", input="symbolic real")
     H = _call(where, "rft2", x, d)
-    xb = _call(where, "irft2", H, df)
-    ctx.prove("irft2(rft2(x))=x", pre, all_eq(xb, x),
+    try:
+        xb = _call(where, "irft2", H, df)
+        goal = all_eq(xb, x)
+    except ValueError:
+        goal = z3.BoolVal(False)
+    ctx.prove("irft2(rft2(x))=x", pre, goal,
               replay=lambda m: replay_inverse(where, "rft2", "irft2", m(x), m(d), N), witness_terms=dict(delta=d))
     if batch:
         g = []
